@@ -200,6 +200,18 @@ pub struct Identity {
 }
 
 impl Identity {
+    /// Switch between the two sets of OTAA credentials the application may provision (an involution).
+    pub fn toggle_alt(&mut self) {
+        for b in self.appkey.iter_mut() {
+            *b ^= 0x5A;
+        }
+        for b in self.deveui.iter_mut() {
+            *b ^= 0xA5;
+        }
+        for b in self.appeui.iter_mut() {
+            *b ^= 0x3C;
+        }
+    }
     pub fn from_seed(seed: u64) -> Self {
         let mut r = Rng::derive(seed, "identity", 0);
         let k = |r: &mut Rng| -> [u8; 16] { r.bytes(16).try_into().unwrap() };
@@ -496,6 +508,21 @@ impl Env {
         if mic_n != n || d.tamper == Tamper::WrongNwkKey {
             let body_len = bytes.len() - 4;
             let mic = rc::data_mic(&mic_keys.nwk, rc::DIR_DOWN, keys.devaddr, mic_n, &bytes[..body_len]);
+            bytes[body_len..].copy_from_slice(&mic);
+        }
+        if let Tamper::Resigned { offset, xor } = d.tamper {
+            let body_len = bytes.len() - 4;
+            let at = offset as usize % body_len;
+            bytes[at] ^= xor;
+            // the MIC a network server would compute for exactly these bytes (direction and address as the frame
+            // now states them, full counter as the receiver will reconstruct it from the wire value)
+            let (dir, addr, n16) = match rc::parse_data(&bytes) {
+                Some(p) => (p.dir(), p.devaddr, p.fcnt16),
+                None => (rc::DIR_DOWN, u32::from_le_bytes([bytes[1], bytes[2], bytes[3], bytes[4]]), u16::from_le_bytes([bytes[6], bytes[7]])),
+            };
+            let last = self.refs.as_ref().and_then(|r| r.last_down);
+            let n_rx = if n16 == n as u16 { n } else { cand_counter(last, n16).unwrap_or(n16 as u32) };
+            let mic = rc::data_mic(&keys.nwk, dir, addr, n_rx, &bytes[..body_len]);
             bytes[body_len..].copy_from_slice(&mic);
         }
         apply_tamper(&mut bytes, &d.tamper);
